@@ -161,14 +161,54 @@ Definition complete (s : state) (fs : list fact) : bool :=
                     | _ => true
                     end) fs.
 
+(* The one place where the code's answer depends on Go's map iteration order is the start node of the
+   ancestry walk behind "uuid:branch~n" (Model.Repo: [ur_pick]); once a merge has given master
+   several lineages the same request can resolve to different nodes, or fail, from call to call.
+   The model covers every order; the check accepts the implementation's answer if SOME order
+   produces it: the picks 0 .. max_pick-1 are tried in turn for all references of the request. *)
+Definition set_pick (p : nat) (x : uref) : uref := mkUref (ur_str x) p.
+Definition req_with_pick (p : nat) (r : req) : req :=
+  match r with
+  | RNewRepo a b c => RNewRepo a b c
+  | RCommit x => RCommit (set_pick p x)
+  | RNewVersion x a f => RNewVersion (set_pick p x) a f
+  | RBranch x b a f => RBranch (set_pick p x) b a f
+  | RTag x t => RTag (set_pick p x) t
+  | RMerge x m ps f => RMerge (set_pick p x) m (List.map (set_pick p) ps) f
+  | RResolve x d ps f => RResolve (set_pick p x) d (List.map (set_pick p) ps) f
+  | RNodeNote x => RNodeNote (set_pick p x)
+  | RNodeLog x => RNodeLog (set_pick p x)
+  | RRepoLog x => RRepoLog (set_pick p x)
+  | RNewData x t n => RNewData (set_pick p x) t n
+  | RRenameData x o n q => RRenameData (set_pick p x) o n q
+  | RDeleteData x n q => RDeleteData (set_pick p x) n q
+  | RDeleteRepo x q => RDeleteRepo (set_pick p x) q
+  end.
+Definition max_pick : nat := 24.
+
+Definition step_agrees (fx : fixes) (s : state) (r : req) (o : oresp) (fs1 : list fact) (p : nat) : option state :=
+  let (s1, out) := step fx s (req_with_pick p r) in
+  match class_of_outcome out with
+  | Some k => if oresp_eqb k o && forallb (fact_ok s1) fs1 && complete s1 fs1 then Some s1 else None
+  | None => None
+  end.
+
+Fixpoint first_pick (fx : fixes) (s : state) (r : req) (o : oresp) (fs1 : list fact) (n p : nat) : option state :=
+  match n with
+  | O => None
+  | S n' => match step_agrees fx s r o fs1 p with
+            | Some s1 => Some s1
+            | None => first_pick fx s r o fs1 n' (S p)
+            end
+  end.
+
 Fixpoint model_run (fx : fixes) (s : state) (fs : list fact) (c : c07case) : bool :=
   match c with
   | [] => true
   | (r, o, ds) :: rest =>
-    let (s1, out) := step fx s r in
     let fs1 := apply_deltas fs ds in
-    match class_of_outcome out with
-    | Some k => oresp_eqb k o && forallb (fact_ok s1) fs1 && complete s1 fs1 && model_run fx s1 fs1 rest
+    match first_pick fx s r o fs1 max_pick 0 with
+    | Some s1 => model_run fx s1 fs1 rest
     | None => false
     end
   end.
